@@ -102,7 +102,9 @@ def pushSpace (s : State) : State :=
 def writeTrivia (s : State) (comment : Bool) (content : List UInt8) : State :=
   let isLine := comment && isSingleLineComment content
   let isMulti := comment && !isLine
-  let s1 := if isMulti && s.commenting then uncomment s else s
+  let s0 := if isMulti && s.commenting then uncomment s else s
+  -- a `-` token directly followed by `--` would start the comment one character early
+  let s1 := if comment && !s0.commenting && s0.rout.head? == some 45 then pushSpace s0 else s0
   let s2 := pushStr s1 content
   if comment then
     if isLine then { s2 with commenting := true } else s2
@@ -286,6 +288,7 @@ def Op.endAfter (lastEnd : Option Nat) : Op → Option Nat
 and this space-checked content — or the content directly follows, in the original code, the
 original token written just before (`lastEnd`), in which case the rule is not consulted. -/
 def Op.h3ok (last : Option UInt8) (lastEnd : Option Nat) : Op → Bool
+  | .trivia true _ => last != some 45     -- a comment never directly follows a `-` (lexically forced)
   | .token text _ true ref =>
     followsOriginal lastEnd ref ||
     match last, text.head? with
